@@ -216,7 +216,13 @@ func runC11(c *core.Ctx) {
 		var out []byte
 		var err error
 		var head bool
-		if c.Guard("codecs.VP8Packet.Unmarshal", func() { out, err = rx.Unmarshal(buf); head = rx.IsPartitionHead(buf) }) {
+		// IsPartitionHead is asked before the receiver has decoded this payload (it still holds the previous one) and after
+		var head0 bool
+		if c.Guard("codecs.VP8Packet.Unmarshal", func() { head0 = rx.IsPartitionHead(buf); out, err = rx.Unmarshal(buf); head = rx.IsPartitionHead(buf) }) {
+			return
+		}
+		if head0 != head {
+			c.Violate("shape", "C11/shape/partition-head-depends-on-receiver", "frame %d packet %d: IsPartitionHead answers %v before and %v after the receiver decoded the same payload", d.frame, d.idx, head0, head)
 			return
 		}
 		if err != nil {
@@ -451,6 +457,26 @@ func runC12(c *core.Ctx) {
 		}
 		if f.showExisting {
 			c.Probe("show-existing-frame")
+			// what P / V / the scalability structure of such a frame must be is not asserted (see the level note); that they
+			// are decided by THIS frame's header and not by the frame the payloader saw before is: a payloader that has
+			// seen nothing, started at the same picture id, must build the same descriptor
+			if !sendFlex && len(ps) > 0 && len(ps[0]) >= 3 && ps[0][0]&0x80 != 0 && len(c.Viol) == 0 {
+				pid := uint16(ps[0][1] & 0x7F)
+				if ps[0][1]&0x80 != 0 {
+					pid = pid<<8 | uint16(ps[0][2])
+				}
+				var ref [][]byte
+				fresh := &codecs.VP9Payloader{FlexibleMode: false, InitialPictureIDFn: func() uint16 { return pid }}
+				if !c.Guard("codecs.VP9Payloader.Payload(fresh)", func() { ref = fresh.Payload(uint16(mtu), append([]byte(nil), f.data...)) }) {
+					same := len(ref) == len(ps)
+					for i := 0; same && i < len(ps); i++ {
+						same = bytes.Equal(ref[i], ps[i])
+					}
+					if !same {
+						c.Violate("shape", "C12/show-existing/depends-on-previous-frame", "frame %d (show_existing_frame, %d bytes): the long-lived payloader and one that has seen no frame before (same picture id %d) build different payloads", k, len(f.data), pid)
+					}
+				}
+			}
 		}
 		if len(fpParts) < 6 {
 			fpParts = append(fpParts, uint64(f.profile)<<8|b2u(f.key)<<7|uint64(f.colorSpace)<<4|uint64(minI(len(ps), 3)))
@@ -464,7 +490,12 @@ func runC12(c *core.Ctx) {
 		var out []byte
 		var err error
 		var head bool
-		if c.Guard("codecs.VP9Packet.Unmarshal", func() { out, err = rx.Unmarshal(buf); head = rx.IsPartitionHead(buf) }) {
+		var head0 bool
+		if c.Guard("codecs.VP9Packet.Unmarshal", func() { head0 = rx.IsPartitionHead(buf); out, err = rx.Unmarshal(buf); head = rx.IsPartitionHead(buf) }) {
+			return
+		}
+		if head0 != head {
+			c.Violate("shape", "C12/shape/partition-head-depends-on-receiver", "frame %d packet %d: IsPartitionHead answers %v before and %v after the receiver decoded the same payload", d.frame, d.idx, head0, head)
 			return
 		}
 		if err != nil {
